@@ -3,6 +3,7 @@ import LlgoVerif.Model.GoType
 import LlgoVerif.Model.Iface
 import LlgoVerif.Spec.TypeIdent
 import LlgoVerif.Lemmas.GoType
+import LlgoVerif.Spec.DynEq
 /-! Line-protocol driver for C07 (executable only; SHA-256 and base64url live here, not in any theorem).
 
 Type terms (prefix notation, blank separated; `H` = hex of UTF-8 bytes, `-` = empty, `~` = absent):
@@ -24,6 +25,15 @@ Requests:
 * `implspec MSET | T`     → `<implements 0/1>`   (MSET is an `I` term holding the method set)
 * `closure X tid tclosure tf0 tnamed | vid vclosure vf0 vnamed` or `| none` → `<matchesClosure>` (X = 1: variant with fixes/C07-3.diff)
 * `sha H`                 → base64url(sha256) (self test)
+
+Dynamic equality / hashing (Model/DynEq.lean; tree syntax as in harness/c07/dyn.go and harness/c07/native/dyn.go.txt; the
+three `memhash` routines of hash64.go are implemented HERE, executable only, and handed to the model as its parameter `H`):
+* `endian 0|1` / `hkey a b c d` / `rnd r0 r1 …` / `D id <desc tree>`   → `ok`   (state: `goarch.BigEndian` of the tree, hashkey, fastrand script, descriptor memory)
+* `eq <obj> | <obj>`              → `EfaceEqual`: `1` | `0` | `panic:uncomparable` | `wild`
+* `heq id <obj> | <obj>`          → `t.Equal(p, q)`
+* `hash iface|nilinter seed <obj>` → `<hex hash> <fastrand calls>` | `panic:unhashable` | `wild`
+* `thash id seed <obj>`           → `typehash`
+* `dynty <type term>`             → `<comparable> <layoutOK> <blankDirect> <desc tree of descOf>`  (the compiler side)
 -/
 open LlgoVerif LlgoVerif.Util LlgoVerif.Types
 
@@ -297,4 +307,310 @@ def handle (line : String) : String :=
     | none => "bad-op"
   | _ => "bad-op"
 
-def main : IO Unit := lineLoop handle
+/-! ## dynamic equality / hashing -/
+
+namespace Dyn
+open LlgoVerif.DynEq
+
+def m1 : UInt64 := 0xa0761d6478bd642f
+def m2 : UInt64 := 0xe7037ed1a0b428db
+def m3 : UInt64 := 0x8ebc6af09c88c6e3
+def m4 : UInt64 := 0x589965cc75374cc3
+def m5 : UInt64 := 0x1d8e4e27c47d124f
+
+/-- hash64.go `mix`: high word xor low word of the 128-bit product -/
+def mix (a b : UInt64) : UInt64 :=
+  let p := a.toNat * b.toNat
+  UInt64.ofNat (p / 2^64) ^^^ UInt64.ofNat (p % 2^64)
+
+/-- alg.go `readUnaligned32/64`: `be` = the value of `goarch.BigEndian` in the working tree (the native driver reports it) -/
+def rd (be : Bool) (d : Array UInt8) (off n : Nat) : UInt64 := Id.run do
+  let mut r : UInt64 := 0
+  for i in [0:n] do
+    r := r ||| ((d.getD (off + i) 0).toUInt64 <<< (8 * (if be then n - 1 - i else i)).toUInt64)
+  return r
+
+/-- hash64.go `memhash(p, seed, s)` on the `s` bytes `d` -/
+def memhash (be : Bool) (hk0 : UInt64) (bs : List UInt8) (seed0 : UInt64) : UInt64 := Id.run do
+  let rd := rd be
+  let d := bs.toArray
+  let s := d.size
+  let mut seed := seed0 ^^^ hk0 ^^^ m1
+  let mut a : UInt64 := 0
+  let mut b : UInt64 := 0
+  if s == 0 then
+    return seed
+  else if s < 4 then
+    a := (d.getD 0 0).toUInt64 ||| ((d.getD (s >>> 1) 0).toUInt64 <<< 8) ||| ((d.getD (s - 1) 0).toUInt64 <<< 16)
+  else if s == 4 then
+    a := rd d 0 4
+    b := a
+  else if s < 8 then
+    a := rd d 0 4
+    b := rd d (s - 4) 4
+  else if s == 8 then
+    a := rd d 0 8
+    b := a
+  else if s ≤ 16 then
+    a := rd d 0 8
+    b := rd d (s - 8) 8
+  else
+    let mut l := s
+    let mut p := 0
+    if l > 48 then
+      let mut seed1 := seed
+      let mut seed2 := seed
+      while l > 48 do
+        seed := mix (rd d p 8 ^^^ m2) (rd d (p + 8) 8 ^^^ seed)
+        seed1 := mix (rd d (p + 16) 8 ^^^ m3) (rd d (p + 24) 8 ^^^ seed1)
+        seed2 := mix (rd d (p + 32) 8 ^^^ m4) (rd d (p + 40) 8 ^^^ seed2)
+        p := p + 48
+        l := l - 48
+      seed := seed ^^^ seed1 ^^^ seed2
+    while l > 16 do
+      seed := mix (rd d p 8 ^^^ m2) (rd d (p + 8) 8 ^^^ seed)
+      p := p + 16
+      l := l - 16
+    a := rd d (p + l - 16) 8
+    b := rd d (p + l - 8) 8
+  return mix (m5 ^^^ UInt64.ofNat s) (mix (a ^^^ m2) (b ^^^ seed))
+
+def memhash32 (be : Bool) (hk0 : UInt64) (bs : List UInt8) (seed : UInt64) : UInt64 :=
+  let a := rd be bs.toArray 0 4
+  mix (m5 ^^^ 4) (mix (a ^^^ m2) (a ^^^ seed ^^^ hk0 ^^^ m1))
+
+def memhash64 (be : Bool) (hk0 : UInt64) (bs : List UInt8) (seed : UInt64) : UInt64 :=
+  let a := rd be bs.toArray 0 8
+  mix (m5 ^^^ 8) (mix (a ^^^ m2) (a ^^^ seed ^^^ hk0 ^^^ m1))
+
+structure St where
+  bigEndian : Bool := false
+  hk0 : UInt64 := 1
+  script : Array UInt32 := #[]
+  descs : Array (Nat × Desc) := #[]
+
+def St.D (st : St) (id : Nat) : Desc :=
+  match st.descs.find? (·.1 == id) with
+  | some (_, d) => d
+  | none => default
+
+def St.H (st : St) : Hashers := ⟨memhash st.bigEndian st.hk0, memhash32 st.bigEndian st.hk0, memhash64 st.bigEndian st.hk0⟩
+def St.rnd (st : St) (k : Nat) : UInt32 := st.script.getD k 0
+
+abbrev P := StateT (List String) Option
+
+def tok : P String := do
+  match (← get) with
+  | [] => failure
+  | t :: r => set r; pure t
+
+def nat : P Nat := do
+  let t ← tok
+  match t.toNat? with
+  | some n => pure n
+  | none => failure
+
+def hexB : P (List UInt8) := do
+  let t ← tok
+  match unhex t with
+  | some b => pure b
+  | none => failure
+
+def eqFnOf : String → Option (Option EqFn)
+  | "-" => some none
+  | "memequal0" => some (some .memequal0) | "memequal8" => some (some .memequal8) | "memequal16" => some (some .memequal16)
+  | "memequal32" => some (some .memequal32) | "memequal64" => some (some .memequal64) | "memequal128" => some (some .memequal128)
+  | "memequalptr" => some (some .memequalptr) | "f32equal" => some (some .f32equal) | "f64equal" => some (some .f64equal)
+  | "c64equal" => some (some .c64equal) | "c128equal" => some (some .c128equal) | "strequal" => some (some .strequal)
+  | "interequal" => some (some .interequal) | "nilinterequal" => some (some .nilinterequal)
+  | "structequal" => some (some .structequal) | "arrayequal" => some (some .arrayequal)
+  | _ => none
+
+def eqFnName : Option EqFn → String
+  | none => "-"
+  | some .memequal0 => "memequal0" | some .memequal8 => "memequal8" | some .memequal16 => "memequal16"
+  | some .memequal32 => "memequal32" | some .memequal64 => "memequal64" | some .memequal128 => "memequal128"
+  | some .memequalptr => "memequalptr" | some .f32equal => "f32equal" | some .f64equal => "f64equal"
+  | some .c64equal => "c64equal" | some .c128equal => "c128equal" | some .strequal => "strequal"
+  | some .interequal => "interequal" | some .nilinterequal => "nilinterequal"
+  | some .structequal => "structequal" | some .arrayequal => "arrayequal"
+
+def common : P Common := do
+  let size ← nat
+  let reg ← tok
+  let dir ← tok
+  let eq ← tok
+  match eqFnOf eq with
+  | some e => pure ⟨size, reg == "1", dir == "1", e⟩
+  | none => failure
+
+mutual
+partial def pDesc : P Desc := do
+  match (← tok) with
+  | "P" =>
+    let c ← common
+    match (← tok) with
+    | "f32" => pure (.plain c .float32) | "f64" => pure (.plain c .float64) | "c64" => pure (.plain c .complex64)
+    | "c128" => pure (.plain c .complex128) | "str" => pure (.plain c .string) | "other" => pure (.plain c .other)
+    | _ => failure
+  | "I" => do let c ← common; let n ← nat; pure (.iface c n)
+  | "A" => do let c ← common; let n ← nat; let e ← pDesc; pure (.array c e n)
+  | "S" => do let c ← common; let n ← nat; let fs ← pDFields n; pure (.struct c fs)
+  | _ => failure
+partial def pDFields : Nat → P DFields
+  | 0 => pure .nil
+  | n+1 => do
+    let blank ← tok
+    let off ← nat
+    let t ← pDesc
+    let r ← pDFields n
+    pure (.cons (blank == "1") off t r)
+end
+
+mutual
+partial def pObj : P (Obj Nat) := do
+  match (← tok) with
+  | "b" => do let b ← hexB; pure (.bytes b)
+  | "s" => do let p ← nat; let b ← hexB; pure (.str p b)
+  | "n" => do let dw ← nat; pure (.enil (UInt64.ofNat dw))
+  | "e" => do
+    let tw ← nat; let tid ← nat; let dw ← nat; let box ← pObj
+    pure (.eface tw tid (UInt64.ofNat dw) box)
+  | "q" => do
+    let n ← nat
+    let ps ← pParts n
+    let tail ← hexB
+    pure (.seq ps tail)
+  | _ => failure
+partial def pParts : Nat → P (Parts Nat)
+  | 0 => pure .nil
+  | n+1 => do
+    let pre ← hexB
+    let o ← pObj
+    let r ← pParts n
+    pure (.cons pre o r)
+end
+
+def bar : P Unit := do
+  if (← tok) == "|" then pure () else failure
+
+def basicOf : String → Option Basic
+  | "bool" => some .bool | "int8" => some .int8 | "int16" => some .int16 | "int32" => some .int32 | "int64" => some .int64
+  | "uint8" => some .uint8 | "uint16" => some .uint16 | "uint32" => some .uint32 | "uint64" => some .uint64
+  | "int" => some .int | "uint" => some .uint | "uintptr" => some .uintptr | "float32" => some .float32
+  | "float64" => some .float64 | "complex64" => some .complex64 | "complex128" => some .complex128
+  | "string" => some .string | "unsafe.Pointer" => some .unsafePointer
+  | _ => none
+
+mutual
+partial def pTy : P Ty := do
+  match (← tok) with
+  | "b" => do
+    match basicOf (← tok) with
+    | some b => pure (.basic b)
+    | none => failure
+  | "p" => do
+    let k ← tok
+    let tag ← nat
+    match k with
+    | "pointer" => pure (.ptr .pointer tag) | "chan" => pure (.ptr .chan tag)
+    | "map" => pure (.ptr .map tag) | "func" => pure (.ptr .func tag)
+    | _ => failure
+  | "l" => do let tag ← nat; pure (.slice tag)
+  | "i" => do let n ← nat; let tag ← nat; pure (.iface n tag)
+  | "a" => do let n ← nat; let e ← pTy; pure (.array n e)
+  | "s" => do let size ← nat; let n ← nat; let fs ← pFs n; pure (.struct size fs)
+  | "n" => do let id ← nat; let u ← pTy; pure (.named id u)
+  | _ => failure
+partial def pFs : Nat → P Fs
+  | 0 => pure .nil
+  | n+1 => do
+    let name ← nat
+    let off ← nat
+    let t ← pTy
+    let r ← pFs n
+    pure (.cons name off t r)
+end
+
+def run {α : Type} (p : P α) (toks : List String) : Option α :=
+  match p.run toks with
+  | some (a, []) => some a
+  | _ => none
+
+def commonStr (c : Common) : String :=
+  toString c.size ++ " " ++ bstr c.regular ++ " " ++ bstr c.direct ++ " " ++ eqFnName c.equal
+
+mutual
+partial def descStr : Desc → String
+  | .plain c k =>
+    "P " ++ commonStr c ++ " " ++ (match k with
+      | .float32 => "f32" | .float64 => "f64" | .complex64 => "c64" | .complex128 => "c128" | .string => "str" | .other => "other")
+  | .iface c n => "I " ++ commonStr c ++ " " ++ toString n
+  | .array c e n => "A " ++ commonStr c ++ " " ++ toString n ++ " " ++ descStr e
+  | .struct c fs => "S " ++ commonStr c ++ " " ++ toString (dfLen fs) ++ dfStr fs
+partial def dfStr : DFields → String
+  | .nil => ""
+  | .cons b off t r => " " ++ bstr b ++ " " ++ toString off ++ " " ++ descStr t ++ dfStr r
+partial def dfLen : DFields → Nat
+  | .nil => 0
+  | .cons _ _ _ r => dfLen r + 1
+end
+
+def hex16 (x : UInt64) : String :=
+  String.ofList ((List.range 16).map fun i => hexDigit ((x.toNat / 16 ^ (15 - i)) % 16))
+
+def eqOut : Except Err Bool → String
+  | .ok true => "1" | .ok false => "0"
+  | .error .uncomparable => "panic:uncomparable" | .error .unhashable => "panic:unhashable" | .error .wild => "wild"
+
+def hashOut (k0 : Nat) : Except Err (UInt64 × Nat) → String
+  | .ok (x, k) => hex16 x ++ " " ++ toString (k - k0)
+  | .error .uncomparable => "panic:uncomparable" | .error .unhashable => "panic:unhashable" | .error .wild => "wild"
+
+def handle (st : St) (line : String) : Option (St × String) :=
+  match fields line with
+  | "hkey" :: a :: _ => do
+    let a ← a.toNat?
+    -- SetHashkey ors 1 into every word
+    pure ({ st with hk0 := UInt64.ofNat a ||| 1 }, "ok")
+  | ["endian", b] => some ({ st with bigEndian := b == "1" }, "ok")
+  | "rnd" :: r => do
+    let vs ← r.mapM String.toNat?
+    pure ({ st with script := (vs.map UInt32.ofNat).toArray }, "ok")
+  | "D" :: id :: toks => do
+    let id ← id.toNat?
+    match run pDesc toks with
+    | some d => pure ({ st with descs := (st.descs.filter (·.1 != id)).push (id, d) }, "ok")
+    | none => pure (st, "bad-op")
+  | "eq" :: toks =>
+    match run (do let p ← pObj; bar; let q ← pObj; pure (p, q)) toks with
+    | some (p, q) => some (st, eqOut (efaceEqual st.D p q))
+    | none => some (st, "bad-op")
+  | "heq" :: id :: toks =>
+    match id.toNat?, run (do let p ← pObj; bar; let q ← pObj; pure (p, q)) toks with
+    | some id, some (p, q) => some (st, eqOut (equalD st.D (st.D id) p q))
+    | _, _ => some (st, "bad-op")
+  | "hash" :: kind :: seed :: toks =>
+    match seed.toNat?, run pObj toks with
+    | some seed, some o =>
+      let r := if kind == "iface" then interhash st.D st.H st.rnd o (UInt64.ofNat seed) 0
+               else nilinterhash st.D st.H st.rnd o (UInt64.ofNat seed) 0
+      some (st, hashOut 0 r)
+    | _, _ => some (st, "bad-op")
+  | "thash" :: id :: seed :: toks =>
+    match id.toNat?, seed.toNat?, run pObj toks with
+    | some id, some seed, some o => some (st, hashOut 0 (typehash st.D st.H st.rnd (st.D id) o (UInt64.ofNat seed) 0))
+    | _, _, _ => some (st, "bad-op")
+  | "dynty" :: toks =>
+    match run pTy toks with
+    | some t => some (st, bstr (comparable t) ++ " " ++ bstr (layoutOK t) ++ " " ++ bstr (directTy t && blankDirect t) ++ " " ++ descStr (descOf t))
+    | none => some (st, "bad-op")
+  | _ => none
+
+end Dyn
+
+def main : IO Unit :=
+  lineLoopSt ({} : Dyn.St) fun st line =>
+    match Dyn.handle st line with
+    | some r => r
+    | none => (st, handle line)
